@@ -27,6 +27,7 @@ FORMULAS = {
     4: "f ~ x + h + bs(z, df=4)",
     5: "y ~ poly(xc, 2) + center(xc) + (scale(xc) | g)",   # training parameters that are exactly zero
     6: "y ~ ustd(x) + ustd(z, shift=1):f + (ustd(x) | h)",     # a user-defined stateful transform from the caller's namespace
+    7: "y ~ C(k) + T(k, 2):x + (1 | k)",   # numeric levels: stored as int64 in frame 1 and as float64 in frame 2 (labels 2 / 2.0)
 }
 from fv.rows import UserStd  # noqa: E402  pylint: disable=wrong-import-position
 
@@ -51,6 +52,8 @@ def frames():
             df[col] = np.array(vals, dtype=object)
         df["o"] = pd.Categorical([["lo", "mid", "hi"][(i + seed) % 3] for i in range(n)], categories=["lo", "mid", "hi"], ordered=True)
         df["k"] = np.array([[1, 2, 3][(i * 5 + seed) % 3] for i in range(n)], dtype=np.int64)
+        if fid in (2, 4):
+            df["k"] = df["k"].astype(float)
         if fid in (3, 4):
             df["xc"] = np.array([(i * 3 + seed) % 5 + 1 for i in range(n)], dtype=np.int64)   # new frames are not centred
         if fid == 4:
@@ -276,7 +279,7 @@ def random_history(rng, maxlen):
         r = rng.random()
         if nd == 0 or r < 0.2:
             if nd < 4:
-                ops.append({"op": "build", "f": rng.randint(1, 6), "D": rng.randint(1, 2)})
+                ops.append({"op": "build", "f": rng.randint(1, 7), "D": rng.randint(1, 2)})
                 nd += 1
                 continue
         if r < 0.7:
@@ -348,7 +351,7 @@ def mc_histories(rep, maxlen):
         out = os.path.join(tmp, "h.ndjson")
         cfg = common.write_cfg(
             os.path.join(tmp, "Lifecycle_MC.cfg"),
-            constants={"UserTransforms": ["ureg"], "Formulas": "{1, 5, 6}", "TrainFrames": "{1, 2}", "NewFrames": "{3, 4}", "Modes": ["error", "warning", "silent"], "BadValues": ["bogus"], "MaxLen": maxlen, "DoExport": True},
+            constants={"UserTransforms": ["ureg"], "Formulas": "{1, 5, 6, 7}", "TrainFrames": "{1, 2}", "NewFrames": "{3, 4}", "Modes": ["error", "warning", "silent"], "BadValues": ["bogus"], "MaxLen": maxlen, "DoExport": True},
             invariants=["HistoryIndependent", "ConfigValid", "Export"],
             properties=["Frozen", "ConfigDiscipline", "RegistryDiscipline"],
         )
@@ -370,7 +373,7 @@ def main(tier, seed):
     frames()
     rep = Report("C07", tier, seed)
     rep.rule = (
-        "S->C: every maximal history of Lifecycle_MC (build / evaluate-common / evaluate-group / set-config over 3 formulas, "
+        "S->C: every maximal history of Lifecycle_MC (build / evaluate-common / evaluate-group / set-config over 4 formulas, "
         "2 training frames, 2 new frames incl. unseen levels, 3 modes + an undocumented value) of length 3 (quick) / 4 sampled "
         "(thorough); C->S: random histories of 4..25 calls with up to 4 live designs (same formula twice, shared call text "
         "scale(x), explicit levels from the caller's namespace), prints and model_description calls. After every call all "
@@ -383,10 +386,10 @@ def main(tier, seed):
     rng = random.Random(seed)
     if tier == "quick":
         hists = mc_histories(rep, 3)
-        if len(hists) > 900:
+        if len(hists) > 600:
             keys = sorted(hists)
             rng.shuffle(keys)
-            hists = {k: hists[k] for k in keys[:900]}
+            hists = {k: hists[k] for k in keys[:600]}
             rep.notes["s2c_sampled"] = True
         run_histories(rep, hists, "S->C")
         run_histories(rep, {i: random_history(rng, 25) for i in range(120)}, "C->S")
